@@ -6,16 +6,95 @@
                              masks, numpy `+=` through an index array, IndexError of a bad index)
    skyllh/core/llhratio.py   MultiDatasetTCLLHRatio.evaluate (value part: sum over the datasets of
                              the single-dataset value at ns * f[j])
-   Polymorphic in the number system.  Formulas are the regenerated kernels of gen/G_weights.v
-   (index plumbing, this property) and gen/G_llh.v (arithmetic, shared with C01/C02).
+   Polymorphic in the number system.  Every formula is a regenerated kernel of gen/G_weights.v.
+   Self-contained: the pieces this property shares with C01 (value of the single-dataset
+   log-likelihood ratio, numpy's `+=` through an index array, f_j) are defined here a second
+   time over this property's own kernels (named w_...), in the same shape as in M_Llh.v, so that the
+   build of C03 does not depend on files that other checks regenerate.
    Definitions only. *)
 From Coq Require Import ZArith List Bool.
-From Sky Require Import Result PyList Num G_llh G_weights M_Llh.
+From Sky Require Import Result PyList Num G_weights.
 Import ListNotations.
 Open Scope Z_scope.
 
 Section Weights.
   Context {T : Type} (Nm : Num T).
+
+
+  (* ------------------------------------------------------------------ *)
+  (* value of ZeroSigH0SingleDatasetTCLLHRatio.evaluate (same shape as M_Llh.v) *)
+  Definition ev_alpha_i (ns x : T) : T := w_alpha_i Nm ns x.
+  Definition ev_stable (opa ns x : T) : bool :=
+    w_m_stable Nm (ev_alpha_i ns x) (w_alpha Nm opa).
+  Definition ev_tilde (opa ns x : T) : T :=
+    w_tildealpha Nm (ev_alpha_i ns x) (w_alpha Nm opa) opa.
+  Definition ev_loglam (opa ns x : T) : T :=
+    if ev_stable opa ns x
+    then w_loglam_stable Nm (ev_alpha_i ns x)
+    else w_loglam_unstable Nm (w_alpha Nm opa) (ev_tilde opa ns x).
+  Definition nlen {A} (l : list A) : T := ofZ Nm (Z.of_nat (length l)).
+  (* log_lambda = np.sum(log_lambda_i) + (N - N')*log1p(-ns/N) *)
+  Definition log_lambda (opa Ntot ns : T) (X : list T) : T :=
+    w_log_lambda Nm Ntot (nlen X) ns (nsum Nm (map (ev_loglam opa ns) X)).
+  (* Xi = (Ri - 1)/N *)
+  Definition Xs (Ntot : T) (R : list T) : list T := map (fun r => w_Xi Nm r Ntot) R.
+  Definition evaluate_value (opa Ntot ns : T) (R : list T) : T :=
+    log_lambda opa Ntot ns (Xs Ntot R).
+
+  (* ------------------------------------------------------------------ *)
+  (* SourceWeightedPDFRatio.get_ratio: numpy `R_i[idx] += v` reads the OLD array
+     and, for a repeated index inside one statement, the last write wins *)
+  Fixpoint last_for (e : nat) (pairs : list (nat * T)) : option T :=
+    match pairs with
+    | [] => None
+    | (i, v) :: r =>
+        match last_for e r with
+        | Some w => Some w
+        | None => if Nat.eqb i e then Some v else None
+        end
+    end.
+
+  (* one `+=` statement: pairs = (event index, increment) in array order; the
+     combining kernel `upd old incr` is the translated `old + incr` *)
+  Definition fancy_add (upd : T -> T -> T) (old : list T) (pairs : list (nat * T)) : list T :=
+    map (fun ie => match last_for (fst ie) pairs with
+                   | Some v => upd (snd ie) v
+                   | None => snd ie
+                   end)
+        (combine (seq 0 (length old)) old).
+
+  (* values : list of (source index, event index, R_ik) in values-array order *)
+  Definition sw_source_step (a_k : list T) (vals : list (nat * nat * T))
+             (R_i : list T) (k : nat) : list T :=
+    let ak := nth k a_k (nzero Nm) in
+    let mine := filter (fun v => Nat.eqb (fst (fst v)) k) vals in
+    fancy_add (fun old r => w_sw_term Nm old r ak)
+      R_i
+      (map (fun v => (snd (fst v), snd v)) mine).
+
+  (* the ratio without the index check (mask written with Nat.eqb); stacked_ratio
+     below is the faithful one and is proved equal to it when the check passes *)
+  Definition sw_ratio (a_k : list T) (n_sel : nat) (vals : list (nat * nat * T)) : list T :=
+    let A := nsum Nm a_k in
+    let R0 := repeat (nzero Nm) n_sel in
+    let R1 := fold_left (sw_source_step a_k vals) (seq 0 (length a_k)) R0 in
+    map (fun r => w_sw_norm Nm r A) R1.
+
+  (* ------------------------------------------------------------------ *)
+  (* DatasetSignalWeightFactorsService.calculate: f_j = sum_k a_jk / sum_jk a_jk *)
+  Definition a_row (W : list T) (Yrow : list T) : list T :=
+    map (fun p => w_a_jk Nm (fst p) (snd p)) (combine W Yrow).
+  Definition a_table (W : list T) (Y : list (list T)) : list (list T) := map (a_row W) Y.
+  Definition a_j (a : list (list T)) : list T := map (nsum Nm) a.
+  (* np.sum over the whole 2D array *)
+  Definition a_tot (a : list (list T)) : T := nsum Nm (concat a).
+  Definition f_j (a : list (list T)) : list T :=
+    map (fun aj => w_f_j Nm aj (a_tot a)) (a_j a).
+
+  (* the additive form: f = dataset weights, ds = per-dataset (N_j, R_j) *)
+  Definition multi_value (opa ns : T) (f : list T) (ds : list (T * list T)) : T :=
+    nsum Nm (map (fun p => evaluate_value opa (fst (snd p)) (w_nsf Nm ns (fst p)) (snd (snd p)))
+                 (combine f ds)).
 
   (* ------------------------------------------------------------------ *)
   (* the slices  slice(sidx, sidx + shg_n_src)  of the sidx loop          *)
@@ -29,10 +108,10 @@ Section Weights.
   (* `src_weights * Yg` : numpy broadcasting of two 1-D arrays *)
   Definition bmul (W Y : list T) : res (list T) :=
     if Nat.eqb (length W) (length Y)
-    then Ok (map (fun p => k_a_jk Nm (fst p) (snd p)) (combine W Y))
+    then Ok (map (fun p => w_a_jk Nm (fst p) (snd p)) (combine W Y))
     else match Y, W with
-         | [y], _ => Ok (map (fun w => k_a_jk Nm w y) W)
-         | _, [w] => Ok (map (fun y => k_a_jk Nm w y) Y)
+         | [y], _ => Ok (map (fun w => w_a_jk Nm w y) W)
+         | _, [w] => Ok (map (fun y => w_a_jk Nm w y) Y)
          | _, _ => Err ValueError
          end.
 
@@ -54,7 +133,7 @@ Section Weights.
   (* for ds_idx in range(n_datasets): the table has one row per dataset;
      Ycol = [Y[0][g]; Y[1][g]; ...] are the yields returned for this group *)
   Fixpoint calc_ds (lo hi : Z) (W : list T) (Ycol : list (list T))
-           (tbl : list (list (option T))) : res (list (list (option T))) :=
+           (tbl : list (list (option T))) {struct tbl} : res (list (list (option T))) :=
     match tbl with
     | [] => Ok []
     | row :: tbl' =>
@@ -105,7 +184,7 @@ Section Weights.
   Definition stack_step (a_k : list T) (vals : list (nat * nat * T))
              (R_i : list T) (k : nat) : list T :=
     let ak := nth k a_k (nzero Nm) in
-    fancy_add (fun old r => k_sw_term Nm old r ak) R_i
+    fancy_add (fun old r => w_sw_term Nm old r ak) R_i
               (map (fun v => (evt_of_val v, snd v)) (mine k vals)).
 
   (* R_i[evt_idxs[src_mask]] raises IndexError for an event index >= n_selected_events;
@@ -119,7 +198,7 @@ Section Weights.
       let A := nsum Nm a_k in
       let R0 := repeat (nzero Nm) n_sel in
       let R1 := fold_left (stack_step a_k vals) (seq 0 (length a_k)) R0 in
-      Ok (map (fun r => k_sw_norm Nm r A) R1)
+      Ok (map (fun r => w_sw_norm Nm r A) R1)
     else Err IndexError.
 
   (* ------------------------------------------------------------------ *)
@@ -136,7 +215,7 @@ Section Weights.
   Definition single_value (opa : T) (a : list (list T)) (nsj : T) (d : dset) : res T :=
     do a_k <- py_get a (k_ak_row_idx0 (d_idx d));
     do R <- stacked_ratio a_k (d_nsel d) (d_vals d);
-    Ok (evaluate_value Nm opa (d_N d) nsj R).
+    Ok (evaluate_value opa (d_N d) nsj R).
 
   (* for (j, llhratio) in enumerate(llhratio_list): ns_j = nsf[j] = ns * f[j] *)
   Fixpoint multi_loop (opa ns : T) (a : list (list T)) (f : list T) (j : Z)
@@ -145,7 +224,7 @@ Section Weights.
     | [] => Ok acc
     | d :: r =>
         do fj <- py_get f (k_nsf_pick_idx0 j);
-        do v <- single_value opa a (k_nsf Nm ns fj) d;
+        do v <- single_value opa a (w_nsf Nm ns fj) d;
         multi_loop opa ns a f (j + 1) r (k_ll_acc Nm acc v)
     end.
 
@@ -155,10 +234,10 @@ Section Weights.
              (groups : list (list T * list (list T))) (ds : list dset) : res T :=
     if negb (Nat.eqb (length ds) n_datasets) then Err ValueError else
     do a <- a_jk_calc n_datasets groups;
-    multi_loop opa ns a (f_j Nm a) 0 ds (k_ll_init Nm).
+    multi_loop opa ns a (f_j a) 0 ds (k_ll_init Nm).
 
   (* the services alone: (a_jk, f_j) *)
   Definition weights_eval (n_datasets : nat) (groups : list (list T * list (list T)))
     : res (list (list T) * list T) :=
-    do a <- a_jk_calc n_datasets groups; Ok (a, f_j Nm a).
+    do a <- a_jk_calc n_datasets groups; Ok (a, f_j a).
 End Weights.
